@@ -253,15 +253,27 @@ class JSONPointer:
             )
         return ""
 
-    def _unicode_escape(self, s: str) -> str:
+    @staticmethod
+    def _unicode_escape(s: str) -> str:
         # UTF-16 escape sequences - possibly surrogate pairs - inside UTF-8
         # encoded strings. As per https://datatracker.ietf.org/doc/html/rfc4627
         # section 2.5.
-        return (
-            codecs.decode(s.replace("\\/", "/"), "unicode-escape")
-            .encode("utf-16", "surrogatepass")
-            .decode("utf-16")
-        )
+        if "\\" not in s:
+            return s
+
+        # The "unicode-escape" codec reads its input as Latin-1, so escape
+        # everything else first or non-ASCII names come out as mojibake.
+        try:
+            return (
+                codecs.decode(
+                    s.replace("\\/", "/").encode("latin-1", "backslashreplace"),
+                    "unicode-escape",
+                )
+                .encode("utf-16", "surrogatepass")
+                .decode("utf-16")
+            )
+        except UnicodeError as err:
+            raise JSONPointerError(f"invalid escape sequence: {err}") from err
 
     @classmethod
     def from_match(
@@ -307,12 +319,7 @@ class JSONPointer:
         if uri_decode:
             _parts = (unquote(p) for p in _parts)
         if unicode_escape:
-            _parts = (
-                codecs.decode(p.replace("\\/", "/"), "unicode-escape")
-                .encode("utf-16", "surrogatepass")
-                .decode("utf-16")
-                for p in _parts
-            )
+            _parts = (cls._unicode_escape(p) for p in _parts)
 
         __parts = tuple(_parts)
 
